@@ -111,7 +111,7 @@ def run():
         where = {"clause_on": ctx[0] if clause not in ("UnitAnnounced",) else "unit", "backend": det.get("backend"), "scenario": desc.get("kind"),
                  "name": desc.get("path"), "sel": desc.get("sel"), "decor": desc.get("decor")}
         if clause == "ObjectsUnchanged":
-            where["attrs"] = sorted(ctx[1]) if isinstance(ctx[1], list) else ctx[1]
+            where["attrs"] = ",".join(sorted(ctx[1])) if isinstance(ctx[1], list) else str(ctx[1])
         what = f"show({det.get('backend')}) scenario {desc.get('kind')}:{desc.get('path')} sel={desc.get('sel')} unit={desc.get('unit')} kappa={desc.get('kappa')}: {clause} {ctx}"
         rep.reject(clause, where, what, det, prop=prop)
     for f in files[:1]:
